@@ -35,17 +35,17 @@ Proof. exact bulk_is_sequential. Qed.
 (* _optimize_struct_fmt only respells the format: the same characters in the same order *)
 Theorem format_optimisation_keeps_the_format : forall info, Forall (fun x : Z * fc => 0 <= fst x) info -> expand (optimize_fmt info) = expand info.
 Proof. exact expand_optimize. Qed.
-(* a generated block over scalar members of ANY kind (packed and byte-sliced integers, floats, char, wchar, enums, pointers): one stream.read of the
-   block size, one struct.unpack of the optimised format, members taken from the tuple by index or sliced out of the buffer and parsed -
+(* a generated block over scalar members of ANY kind (packed and byte-sliced integers, floats, char, wchar, enums, pointers) and fixed-size arrays
+   of them (`bmem`: char[n], wchar[n], uint32[n], int24[n], enum and pointer arrays): one stream.read of the block size, one struct.unpack of the optimised format, members taken from the tuple by index or sliced out of the buffer and parsed -
    is reading the members one after the other from the stream: same values, recorded sizes, expression context and end position, and it
    fails iff that fails (EOFError for a short block where the member-wise reader fails at the first member that does not fit) *)
-Theorem generated_block_reads_memberwise : forall c fuel B i, Forall (fun f => bprim c (f_ty f) <> None) B ->
+Theorem generated_block_reads_memberwise : forall c fuel B i, inclass c B ->
   contig c (match B with f :: _ => f_off f | [] => None end) B -> gen_block c false B = Ok i -> bsize c B <= 9223372036854775807 ->
   forall s o al st, 0 <= p_pos st ->
     req (run_instr c (fun f => read_ty c fuel (f_ty f)) s o al i st) (do r <- seq_block c fuel B s (p_pos st) st; Ok (set_pos (fst r) (snd r))).
 Proof. exact block_sound. Qed.
-(* THE PROPERTY for packed structures as the parser makes them (no set offsets, no bit fields) whose members are scalars of any kind or have a
-   reader of their own (nested structures and unions, arrays of them, multi-dimensional and dynamically sized arrays - `cls'`): whenever the
+(* THE PROPERTY for packed structures as the parser makes them (no set offsets, no bit fields) whose members are scalars of any kind, fixed-size arrays of
+   scalars, or have a reader of their own (nested structures and unions, arrays of them, multi-dimensional and dynamically sized arrays - `cls'`): whenever the
    generator produces a plan, running the generated statements returns exactly what the interpreted reader returns - the same object
    (values in declaration order, recorded sizes) and the same end position - or both raise.  Block merging, the seeks after sub-readers
    (position_known), the tracked offset and the fall back to sequential reading after a dynamically sized member are all inside. *)
@@ -70,12 +70,13 @@ Example ex_block : block_read "<" [PInt 2 false true; PInt 1 true true; PFloat 4
 Proof. vm_compute. split; reflexivity. Qed.
 
 (* non-vacuity of compiled_reader_is_interpreted_reader:
-   struct { uint8 a; uint16 b; N n; int24 c; char d; uint8 k; uint8 arr[k]; uint32 g; wchar w; }  with  struct N { uint8 x; uint32 y; } *)
+   struct { uint8 a; uint16 b; N n; int24 c; char d[3]; uint16 h[2]; int24 i[2]; uint8 k; uint8 arr[k]; uint32 g; wchar w; }  with  struct N { uint8 x; uint32 y; } *)
 Definition exc_cfg := mkCfg "<" (PInt 8 false true) 8 [] [].
 Definition exc_u8 := TPrim (PInt 1 false true) 1.
 Definition exc_N := TStruct "N" [Fld "x" false exc_u8 None None; Fld "y" false (TPrim (PInt 4 false true) 4) None None] false.
 Definition exc_fs := [Fld "a" false exc_u8 None None; Fld "b" false (TPrim (PInt 2 false true) 2) None None; Fld "n" false exc_N None None;
-                      Fld "c" false (TPrim (PInt 3 true false) 4) None None; Fld "d" false (TPrim PChar 1) None None; Fld "k" false exc_u8 None None;
+                      Fld "c" false (TPrim (PInt 3 true false) 4) None None; Fld "d" false (TArr (TPrim PChar 1) (LFixed 3)) None None; Fld "h" false (TArr (TPrim (PInt 2 false true) 2) (LFixed 2)) None None;
+                      Fld "i" false (TArr (TPrim (PInt 3 true false) 4) (LFixed 2)) None None; Fld "k" false exc_u8 None None;
                       Fld "arr" false (TArr exc_u8 (LExpr ["k"] false)) None None; Fld "g" false (TPrim (PInt 4 false true) 4) None None;
                       Fld "w" false (TPrim PWchar 2) None None].
 Example exc_class : Forall (fun f => f_off f = None /\ cls' exc_cfg 50 f) exc_fs /\ NoDup (map f_name exc_fs) /\ bsize exc_cfg exc_fs <= 9223372036854775807
@@ -92,11 +93,12 @@ Proof.
 Qed.
 Example exc_plan : (do p <- compile_plan exc_cfg false exc_fs; Ok (skel p)) =
   Ok [SBlock 3 [(1, "B"); (1, "H")] true [("a", GData 0, 1); ("b", GData 1, 2)]; SSub "n"; SSeek 8;
-      SBlock 5 [(4, "x"); (1, "B")] true [("c", GBuf 0 3, 3); ("d", GBuf 3 4, 1); ("k", GData 0, 1)]; SSub "arr";
+      SBlock 17 [(6, "x"); (2, "H"); (6, "x"); (1, "B")] true
+        [("c", GBuf 0 3, 3); ("d", GBuf 3 6, 3); ("h", GDataN 0 2, 4); ("i", GBuf 10 16, 6); ("k", GData 2, 1)]; SSub "arr";
       SBlock 6 [(1, "I"); (2, "x")] true [("g", GData 0, 4); ("w", GBuf 4 6, 2)]].
 Proof. vm_compute. reflexivity. Qed.
-Example exc_run : let s := [1; 2; 3; 4; 5; 6; 7; 8; 9; 10; 11; 65; 2; 13; 14; 15; 16; 17; 18; 66; 0; 99] in
+Example exc_run : let s := [1; 2; 3; 4; 5; 6; 7; 8; 9; 10; 11; 65; 66; 67; 1; 2; 3; 4; 5; 6; 7; 8; 9; 10; 2; 13; 14; 15; 16; 17; 18; 66; 0; 99] in
   read_compiled exc_cfg 50 false exc_fs s 0 = read_ty exc_cfg 50 (TStruct "m" exc_fs false) s 0 [] /\
-  (exists v, read_compiled exc_cfg 50 false exc_fs s 0 = Ok (v, 21)) /\
-  (exists er, read_compiled exc_cfg 50 false exc_fs (firstn 20 s) 0 = Err er) /\ (exists er, read_ty exc_cfg 50 (TStruct "m" exc_fs false) (firstn 20 s) 0 [] = Err er).
+  (exists v, read_compiled exc_cfg 50 false exc_fs s 0 = Ok (v, 33)) /\
+  (exists er, read_compiled exc_cfg 50 false exc_fs (firstn 32 s) 0 = Err er) /\ (exists er, read_ty exc_cfg 50 (TStruct "m" exc_fs false) (firstn 32 s) 0 [] = Err er).
 Proof. cbv zeta. split; [vm_compute; reflexivity|]. split; [eexists; vm_compute; reflexivity|]. split; eexists; vm_compute; reflexivity. Qed.
